@@ -25,6 +25,10 @@ Definition g_step4_strict (strict_list : list bool) : bool :=
 Definition g_step5 (has_candidates : bool) : res unit :=
   if has_candidates then Ok tt else Err "DisjunctionError".
 
+(* request.py: find_reversed_path matched literally (a crossed OMS without reverse OMS raises ValueError); filter: *)
+Definition g_rev_keeps (n : net) (el : Z) : bool :=
+  ((negb (is_trx n el)) && (negb (is_roadm n el))).
+
 (* request.py: compare_reqs, the test on the disjunction groups of the two requests *)
 Definition g_same_disj (r1 r2 : rid) (gs : list grp) : bool :=
   if ((in_some r1 gs) && (in_some r2 gs)) then (if (ms_eq (shape r1 gs) (shape r2 gs)) then true else false)
@@ -33,3 +37,18 @@ Definition g_same_disj (r1 r2 : rid) (gs : list grp) : bool :=
 (* request.py: compare_reqs, the attributes that must be equal *)
 Definition g_compared_attrs : list string :=
   ["source"; "destination"; "bidir"; "tsp"; "tsp_mode"; "baud_rate"; "nodes_list"; "loose_list"; "spacing"; "power"; "nb_channel"; "f_min"; "f_max"; "format"; "OSNR"; "roll_off"; "tx_power"]%string.
+
+(* request.py: correct_json_route_list: positions popped from loose_list / nodes_list when the own source is
+   listed first, the own destination last (Python indices); an unusable LOOSE hop pops the hop type found at
+   nodes_list.index(n_id) (matched literally) *)
+Definition g_clean_pops : list Z := [0; 0; (-1); (-1)].
+
+(* request.py: compare_reqs, the attributes that must be equal (plain `req1.x == req2.x`) *)
+Definition g_twin_attrs : list string :=
+  ["source"; "destination"; "bidir"; "tsp"; "tsp_mode"; "baud_rate"; "nodes_list"; "loose_list"; "spacing"; "power"; "nb_channel"; "f_min"; "f_max"; "format"; "OSNR"; "roll_off"; "tx_power"]%string.
+
+(* topology_parameters.py: BaseParams.update_attr matched literally: list and dict defaults are deep-copied per
+   instance, so no PathRequest shares nodes_list / loose_list with another one (batches are independent) *)
+
+(* json_io.py: requests_from_json matched literally: the route objects are sorted by x['index'] (numeric), the
+   include list and the hop types are read from them in that order *)
